@@ -38,7 +38,7 @@ extern MPT_INTERFACE(metatype) *mpt_meta_new(const MPT_STRUCT(value) *val)
 		return 0;
 	}
 	/* data too big for basic type */
-	if (len >= UINT8_MAX) {
+	if (_mpt_geninfo_size(len + 1) < 0) {
 		MPT_STRUCT(array) a = MPT_ARRAY_INIT;
 		MPT_STRUCT(buffer) *buf;
 		const MPT_STRUCT(type_traits) *traits;
